@@ -201,13 +201,13 @@ class Recorder:
         self.ev('end')
         self.stopped = True
         for (b, _) in self.browsers.values():
-            await b.async_cancel()
+            await simnet.quiet(b.async_cancel())
         for t in self.tasks:
             if not t.done():
                 t.cancel()
         for h in self.hosts.values():
             if not h.zc.done:
-                await h.aiozc.async_close()
+                await simnet.quiet(h.aiozc.async_close())
 
     def run(self) -> dict:
         self.net.run(self.main(), limit_ms=6 * 3600 * 1000)
@@ -234,7 +234,7 @@ def gen_link(rng: random.Random, sid: str, thorough: bool = False) -> dict:
     svcs = []
     for k in range(nsvc):
         svcs.append({'name': '%s-%d.%s' % (rng.choice(['Alpha', 'beta', 'Gamma Ray']), k, rng.choice(types)), 'type': None,
-                     'host': rng.choice(hosts), 'port': rng.choice([80, 631, 8080]), 'txt': rng.choice([b'\x03a=1', b'', b'\x04k=vv']).hex()})
+                     'host': rng.choice(hosts), 'port': rng.choice([80, 631, 8080, 128]), 'txt': rng.choice([b'\x03a=1', b'', b'\x04k=vv', b'\x7fk=' + b'x' * 125]).hex()})
         svcs[-1]['type'] = svcs[-1]['name'].split('.', 1)[1]
     evs: List[Tuple[int, int, dict]] = []
     k = 0
